@@ -144,9 +144,15 @@ func (cp *CIDPrimary) flushBlock(key []byte, value []byte) (types.Work, error) {
 
 func (cp *CIDPrimary) IndexKey(key []byte) ([]byte, error) {
 	// A CID is stored, but the index only contains the digest (the actual hash) of the CID.
-	_, c, err := cid.CidFromBytes(key)
+	n, c, err := cid.CidFromBytes(key)
 	if err != nil {
 		return nil, err
+	}
+	if n != len(key) {
+		// CidFromBytes accepts bytes following the CID. They are not part of
+		// the key, and reading the record back would return them as the
+		// beginning of the value.
+		return nil, fmt.Errorf("key has %d bytes following the cid", len(key)-n)
 	}
 	decoded, err := multihash.Decode([]byte(c.Hash()))
 	if err != nil {
